@@ -39,6 +39,9 @@ structure St where
   fid : Nat := 0
   /-- (u, w): the Interest of the latest fetch timed out and was not re-expressed (nothing is pending) -/
   noPend : List (Nat × Nat) := []
+  /-- 0: the harness drives every step; 1: wire history (started routers, the harness is the network), tables not
+      known to the model; 2: wire history right after `wquiet` (tables = the fixed point of the topology) -/
+  wire : Nat := 0
   sp : SpecSt := {}
 
 def aseqOf (s : St) (p : Nat × Nat) : Nat := ((s.aseq.find? (·.1 == p)).map (·.2)).getD 0
@@ -444,7 +447,84 @@ def stepRest (s : St) (op : String) (got : String) : StepResult St :=
       | _, _ => r
     | _ => r
 
+/-- one fair round of the model: every directed link once -/
+def fairRound (net : Net) (links : List (Nat × Nat)) : Net :=
+  links.foldl (fun net p => match net.fetch p.1 p.2 (p.2 + 1) with | some (n2, _) => n2 | none => net) net
+
+/-- the tables of the topology's fixed point, reached from freshly started routers (at most `fuel` fair rounds) -/
+def fixedPointNet (keys : List Nat) (links : List (Nat × Nat)) : Nat → Net → Net
+  | 0, net => net
+  | fuel + 1, net =>
+    let net' := fairRound net links
+    if dumpAll keys net' == dumpAll keys net then net' else fixedPointNet keys links fuel net'
+
+/-- ops of a wire history: the routers run by themselves (real Router.Start: handlers, heartbeat and deadcheck
+    tickers, retry loops); the harness only carries, loses, duplicates, delays and reorders their packets -/
+def stepWire (s : St) (op : String) (got : String) : Option (StepResult St) :=
+  let sp := s.sp
+  match op.splitOn " " with
+  | ["neww", n, adv, dead] =>
+    match adv.toNat?, dead.toNat? with
+    | some adv, some dead =>
+      if configValid adv dead then
+        let r := stepCore {} s!"new {n}" got
+        some { r with st := { r.st with wire := 1 }, cov := ["wire-new"] ++ r.cov }
+      else some { st := {}, expected := some "rejected", cov := ["new-rejected"] }
+    | _, _ => some { st := {}, expected := some "bad-op" }
+  | "wrun" :: _ =>
+    if s.wire == 0 then some { st := s, expected := some "skip" } else
+    some { st := { s with wire := 1, sp := disturb sp }, expected := some "ok",
+           spec := if isCrash got then [⟨"no-panic", "crash", s!"wrun: {got}"⟩] else [], cov := ["wire-run"] }
+  | ["wrestart", x] =>
+    if s.wire == 0 then some { st := s, expected := some "skip" } else
+    match x.toNat? with
+    | some x => if x < s.keys.length then
+        some { st := { s with wire := 1, sp := disturb sp }, expected := some "ok",
+               spec := if isCrash got then [⟨"no-panic", "crash", s!"wrestart: {got}"⟩] else [], cov := ["wire-restart"] }
+      else some { st := s, expected := some "skip" }
+    | none => some { st := s, expected := some "bad-op" }
+  | ["wquiet", _] =>
+    if s.wire == 0 then some { st := s, expected := some "skip" } else
+    -- model: the unique fixed point of the current topology (converges_within_rounds: 16 fair rounds from start-up)
+    let net := fixedPointNet s.keys s.links 64 (s.keys.map Router.start)
+    let (dumps, tail) := match got.splitOn " | " with
+      | [d, t] => (d, t)
+      | _ => (got, "")
+    let q := parseField tail "q"
+    let uns := parseField tail "unsynced"
+    let tailFails : List SpecFail :=
+      (if isCrash got then [⟨"no-panic", "crash", s!"wquiet: {got}"⟩] else []) ++
+      (if q == some "0" then [⟨"pending-work-drains", "never-quiet",
+          s!"on a loss-free network the routers never come to rest (advertisement fetches / Data keep travelling for 200 heartbeat intervals): {got}"⟩] else []) ++
+      (match uns with
+       | some u => if u == "-" || q != some "1" then [] else
+          [⟨"quiescent-link-synced", "unsynced",
+            s!"nothing is pending or in flight any more and heartbeats got through, yet on the up link(s) {u} (u>w) router u does not hold w's current advertisement under w's current sequence number: {got}"⟩]
+       | none => [])
+    -- spec side: judged like a `check` after enough fair rounds on a stale-free network
+    let spQ : SpecSt := { sp with nbr := sp.links, awaiting := [], rounds := Spec.boundRounds, pending := sp.links,
+                                  copy := [], pendCopy := [], flightsN := [] }
+    let r := stepCore { s with net := net, sp := if q == some "1" then spQ else sp } "check" dumps
+    some { r with st := { r.st with wire := 2, aseq := [], flights := [], noPend := [], sp := setTexts r.st.sp dumps },
+                  expected := some (dumpAll s.keys net ++ " | unsynced=- q=1"),
+                  spec := tailFails ++ r.spec, cov := ["wire-quiet"] ++ r.cov }
+  | _ =>
+    if s.wire == 0 then none else
+    match op.splitOn " " with
+    | ["link", _, _] | ["unlink", _, _] =>
+      let r := stepCore s op got
+      some { r with st := { r.st with wire := 1 } }
+    | ["check"] =>
+      let r := stepCore s op got
+      some (if s.wire == 2 then r else { r with expected := none })
+    | "new" :: _ => none
+    | "cfg" :: _ => none
+    | _ => some { st := s, expected := some "skip" }
+
 def step (s : St) (op : String) (got : String) : StepResult St :=
+  match stepWire s op got with
+  | some r => r
+  | none =>
   let sp := s.sp
   match op.splitOn " " with
   | ["tick"] =>
